@@ -1,0 +1,97 @@
+//! Verification hook, compiled only with the `verif-hooks` feature.
+//!
+//! A thin wrapper around `std::sync::Mutex` that announces lock attempts, blocked attempts and
+//! releases to a process-global callback, so that an external controlled scheduler can observe
+//! the real lock of `InMemoryStorage`. With no callback installed it behaves exactly like the
+//! standard mutex.
+use std::ops::{Deref, DerefMut};
+use std::sync::atomic::{AtomicUsize, Ordering};
+use std::sync::{LockResult, PoisonError, TryLockError};
+
+/// Events reported to the callback.
+#[derive(Clone, Copy, Debug, PartialEq, Eq)]
+pub enum LockEvent {
+    /// A thread is about to try to take the lock.
+    BeforeLock,
+    /// The lock was busy; the callback should not return before it is worth retrying.
+    Blocked,
+    /// The lock was taken by the calling thread.
+    Acquired,
+    /// The lock was released by the calling thread.
+    Released,
+}
+
+static CALLBACK: AtomicUsize = AtomicUsize::new(0);
+
+/// Install (or with `None`, remove) the process-global callback.
+pub fn set_lock_callback(cb: Option<fn(LockEvent)>) {
+    CALLBACK.store(cb.map(|f| f as usize).unwrap_or(0), Ordering::SeqCst);
+}
+
+fn callback() -> Option<fn(LockEvent)> {
+    let p = CALLBACK.load(Ordering::SeqCst);
+    if p == 0 {
+        None
+    } else {
+        // SAFETY: only ever stored from a `fn(LockEvent)` in `set_lock_callback`.
+        Some(unsafe { std::mem::transmute::<usize, fn(LockEvent)>(p) })
+    }
+}
+
+pub struct Mutex<T>(std::sync::Mutex<T>);
+
+pub struct MutexGuard<'a, T>(Option<std::sync::MutexGuard<'a, T>>);
+
+impl<T> Mutex<T> {
+    pub fn new(t: T) -> Self {
+        Mutex(std::sync::Mutex::new(t))
+    }
+
+    pub fn lock(&self) -> LockResult<MutexGuard<'_, T>> {
+        let cb = match callback() {
+            None => {
+                return match self.0.lock() {
+                    Ok(g) => Ok(MutexGuard(Some(g))),
+                    Err(p) => Err(PoisonError::new(MutexGuard(Some(p.into_inner())))),
+                }
+            }
+            Some(cb) => cb,
+        };
+        cb(LockEvent::BeforeLock);
+        loop {
+            match self.0.try_lock() {
+                Ok(g) => {
+                    cb(LockEvent::Acquired);
+                    return Ok(MutexGuard(Some(g)));
+                }
+                Err(TryLockError::Poisoned(p)) => {
+                    cb(LockEvent::Acquired);
+                    return Err(PoisonError::new(MutexGuard(Some(p.into_inner()))));
+                }
+                Err(TryLockError::WouldBlock) => cb(LockEvent::Blocked),
+            }
+        }
+    }
+}
+
+impl<T> Deref for MutexGuard<'_, T> {
+    type Target = T;
+    fn deref(&self) -> &T {
+        self.0.as_ref().unwrap()
+    }
+}
+
+impl<T> DerefMut for MutexGuard<'_, T> {
+    fn deref_mut(&mut self) -> &mut T {
+        self.0.as_mut().unwrap()
+    }
+}
+
+impl<T> Drop for MutexGuard<'_, T> {
+    fn drop(&mut self) {
+        drop(self.0.take());
+        if let Some(cb) = callback() {
+            cb(LockEvent::Released);
+        }
+    }
+}
